@@ -831,3 +831,109 @@ Proof.
     destruct (lint_function f args body k) as [wf|] eqn:Ef; [|exfalso; eapply lint_function_total; eassumption].
     exists k, args, a, b, body, wf. split; [exact Hn|]. split; [exact Ef|]. eapply (lint_function_rev _ _ _ _ _ Ef); eassumption.
 Qed.
+
+(* ================= the tie to the runtime's label lookup ================= *)
+Section Runtime.
+Variable cfg : config.
+Variable lib : caller -> str -> list value -> world -> lres * world.
+Variable url_rel : str -> str -> str.
+Variable lint_lines : script -> list str.
+Notation exec := (exec cfg lib url_rel lint_lines).
+Notation eval := (eval cfg lib url_rel lint_lines).
+
+(* the jump at [pc] is taken: it has no condition, or its condition evaluates to a true value *)
+Definition jump_taken (f : nat) (cond : option expr) (loc : option env) (um : umode) (w : world) : Prop :=
+  match cond with
+  | None => True
+  | Some c => exists v w1, eval f c loc false um (upd_count w (w_count w + 1)) = (OVal v, w1) /\ truthy w1 v = true
+  end.
+
+Definition within_budget (w : world) : Prop := ((0 <? c_max cfg)%Z && (c_max cfg <? w_count w + 1)%Z)%bool = false.
+
+(* a taken jump (conditional or not) whose label the list does not define raises "Unknown jump label" *)
+Lemma taken_jump_unknown : forall f code pc cache loc um w label cond,
+  cache_ok code cache -> nth_error code pc = Some (SJump label cond) -> find_label label code = None ->
+  within_budget w -> jump_taken f cond loc um w ->
+  fst (fst (exec (S f) code pc cache loc um w)) = ORt (msg_unknown_label label).
+Proof.
+  intros f code pc cache loc um w label cond Hc Hn Hf Hb Ht.
+  rewrite exec_S. unfold exec_body. rewrite Hn. cbn [w_count upd_count]. unfold within_budget in Hb. rewrite Hb.
+  assert (Ha : assoc label cache = None).
+  { destruct (assoc label cache) as [ix|] eqn:Ea; [|reflexivity]. rewrite (Hc _ _ Ea) in Hf. discriminate. }
+  destruct cond as [c|]; cbn in Ht.
+  - destruct Ht as (v & w1 & -> & ->). rewrite Ha, Hf. reflexivity.
+  - rewrite Ha, Hf. reflexivity.
+Qed.
+
+(* a taken jump whose label the list defines does not raise: it goes on after the first such label *)
+Lemma taken_jump_known : forall f code pc loc um w label cond k,
+  nth_error code pc = Some (SJump label cond) -> find_label label code = Some k ->
+  within_budget w -> jump_taken f cond loc um w ->
+  exists w1, exec (S f) code pc [] loc um w = exec f code (S k) [] loc um w1.
+Proof.
+  intros f code pc loc um w label cond k Hn Hf Hb Ht.
+  rewrite exec_S. unfold exec_body. rewrite Hn. cbn [w_count upd_count]. unfold within_budget in Hb. rewrite Hb. cbn [assoc].
+  destruct cond as [c|]; cbn in Ht.
+  - destruct Ht as (v & w1 & -> & ->). rewrite Hf. exists w1. apply exec_cache_irrelevant. apply cache_ok_cons; [apply cache_ok_nil|exact Hf].
+  - rewrite Hf. eexists. apply exec_cache_irrelevant. apply cache_ok_cons; [apply cache_ok_nil|exact Hf].
+Qed.
+
+(* the warning is issued for exactly the labels whose jumps CAN raise the runtime error: every jump of the global list to a
+   reported label raises it when taken; a jump to a label that is not reported never does (it continues after the label) *)
+Theorem unknown_warning_predicts_runtime_error : forall s l i f pc cache loc um w cond,
+  In (WUnknownLabel l i) (lint s) ->
+  nth_error s pc = Some (SJump l cond) -> cache_ok s cache -> within_budget w -> jump_taken f cond loc um w ->
+  fst (fst (exec (S f) s pc cache loc um w)) = ORt (msg_unknown_label l).
+Proof.
+  intros s l i f pc cache loc um w cond Hw Hn Hc Hb Ht. apply unknown_global_iff in Hw. destruct Hw as [_ Hf].
+  eapply taken_jump_unknown; eassumption.
+Qed.
+
+Theorem no_unknown_warning_no_runtime_error : forall s l f pc loc um w cond,
+  (forall i, ~ In (WUnknownLabel l i) (lint s)) ->
+  nth_error s pc = Some (SJump l cond) -> within_budget w -> jump_taken f cond loc um w ->
+  exists k w1, find_label l s = Some k /\ exec (S f) s pc [] loc um w = exec f s (S k) [] loc um w1.
+Proof.
+  intros s l f pc loc um w cond Hw Hn Hb Ht.
+  destruct (find_label l s) as [k|] eqn:Ef.
+  - destruct (taken_jump_known f s pc loc um w l cond k Hn Ef Hb Ht) as (w1 & H). eauto.
+  - exfalso. destruct (proj1 (some_jump_last l s)) as (i & Hi); [eauto|]. apply (Hw i). apply unknown_global_iff. auto.
+Qed.
+
+(* the same for a function body: it is run as its own list (C08 call_scope_local), so the scope of the warning is the scope of the lookup *)
+Theorem fn_unknown_warning_predicts_runtime_error : forall s l fn i f pc cache loc um w cond,
+  In (WFnUnknownLabel l fn i) (lint s) ->
+  exists k args a b body, nth_error s k = Some (SFunction fn args a b body) /\
+    (nth_error body pc = Some (SJump l cond) -> cache_ok body cache -> within_budget w -> jump_taken f cond loc um w ->
+     fst (fst (exec (S f) body pc cache loc um w)) = ORt (msg_unknown_label l)).
+Proof.
+  intros s l fn i f pc cache loc um w cond Hw. apply unknown_fn_iff in Hw. destruct Hw as (k & args & a & b & body & Hn & _ & Hf).
+  exists k, args, a, b, body. split; [exact Hn|]. intros. eapply taken_jump_unknown; eassumption.
+Qed.
+
+End Runtime.
+
+(* ---- non-vacuity ---- *)
+Example unknown_demo :
+  In (WUnknownLabel (U "b") 1) (lint [SLabel (U "a"); SJump (U "b") None; SJump (U "a") None]) /\
+  forall i, ~ In (WUnknownLabel (U "a") i) (lint [SLabel (U "a"); SJump (U "b") None; SJump (U "a") None]).
+Proof.
+  split; [vm_compute; tauto|]. intros i H. apply unknown_global_iff in H. destruct H as [_ H]. vm_compute in H. discriminate.
+Qed.
+
+Example redef_demo :
+  let s := [SFunction (U "ff") (Some [U "p"; U "q"; U "p"]) false false [SLabel (U "L"); SLabel (U "L")];
+            SFunction (U "ff") None false false []] in
+  In (WFnRedef (U "ff") 1) (lint s) /\ In (WDupArg (U "p") (U "ff") 0) (lint s) /\ In (WFnLabelRedef (U "L") (U "ff") 1) (lint s).
+Proof. vm_compute. tauto. Qed.
+
+(* F26 (known finding): lint does not visit a function statement nested in a function body; the theorems above are about the scopes
+   lint visits (the global list and the body of each global function statement).  The property clause fails for the nested scope: *)
+Example nested_scope_refuted :
+  let inner := [SJump (U "zz") None] in
+  let s := [SFunction (U "out") (Some [U "a"]) false false
+              [SFunction (U "inner") (Some [U "b"]) false false inner; SReturn (Some (ECall (U "inner") []))];
+            SExpr None (ECall (U "out") [])] in
+  find_label (U "zz") inner = None /\                                   (* the jump of `inner` raises when taken *)
+  lint s = [WUnusedArg (U "a") (U "out") 0].                           (* ... and lint says nothing about it *)
+Proof. vm_compute. split; reflexivity. Qed.
